@@ -690,6 +690,16 @@ func (x *fx) evalCall(e *Expr, env *specEnv) *Val {
 				}
 			}
 		}
+		// call through a function-typed struct field: pure function value
+		if fvv := x.tryEval(f, env); fvv != nil {
+			if sig, ok := fvv.T.Underlying().(*types.Signature); ok {
+				var avs []*Val
+				for i, a := range args {
+					avs = append(avs, x.typed(x.eval(a, env), sig.Params().At(i).Type()))
+				}
+				return x.pureFnCall(fvv, sig, avs)
+			}
+		}
 		// method call on a value: pure method UF
 		recv := x.eval(f.Args[0], env)
 		var avs []*Val
@@ -1057,4 +1067,19 @@ func (x *fx) ghostMem(gv *GhostVar) (string, types.Type) {
 func (x *fx) ghostRead(gv *GhostVar, m *memNode) *Val {
 	name, t := x.ghostMem(gv)
 	return &Val{T: t, S: x.resolve(m, name)}
+}
+
+// tryEval evaluates e, returning nil when it does not bind (used to
+// distinguish field selection from method calls).
+func (x *fx) tryEval(e *Expr, env *specEnv) (v *Val) {
+	defer func() {
+		if r := recover(); r != nil {
+			if _, ok := r.(specErr); ok {
+				v = nil
+				return
+			}
+			panic(r)
+		}
+	}()
+	return x.eval(e, env)
 }
